@@ -308,9 +308,13 @@ pub fn realise_type(g: &Graph, salt: u64, arrays: bool) -> (String, Vec<(usize, 
             };
             s.push_str(&format!("t{} : {}{};\n", i, recase(&format!("t{}", j), salt ^ (i * 31 + j) as u64), dflt));
         } else if outdeg[i] == 1 && mix(salt ^ (i as u64 * 389)) % 3 == 0 {
-            // an alias of a type that is no enumeration (a structure, an array, another such alias)
+            // an alias of a type that is no enumeration (a structure, an array, another such alias);
+            // half of them written with an initial value all the same (`t1 : t2 := v;` is an
+            // enumeration declaration for the parser whatever t2 turns out to be - ill-typed when t2
+            // is a structure, but a cycle through it is a cycle)
             let j = (0..g.n).find(|&j| g.adj[i][j]).unwrap();
-            s.push_str(&format!("t{} : {};\n", i, recase(&format!("t{}", j), salt ^ (i * 31 + j) as u64)));
+            let dflt = if mix(salt ^ (i as u64 * 271)) % 2 == 0 { " := v0a" } else { "" };
+            s.push_str(&format!("t{} : {}{};\n", i, recase(&format!("t{}", j), salt ^ (i * 31 + j) as u64), dflt));
         } else if outdeg[i] == 1 && arrays && mix(salt ^ (i as u64 * 77)) % 4 == 0 {
             // an array type whose elements are of the target type
             let j = (0..g.n).find(|&j| g.adj[i][j]).unwrap();
